@@ -37,6 +37,14 @@ def run(ck, ctx):
                      "inside one critical section (a value stored between an unlocked check and the parking would never wake the "
                      "requester) and returns Ready only with the value taken out of the slot; ResponseSlot::reset empties the value; "
                      "a slot is pushed into the pool only fresh or after reset")
+    ck.rule("R02.9", "a submitted command is awaited to its reply: in the request path (sharded_actor, replicated_shard_actor, response_pool, "
+                     "replicated_state) a reply future is polled directly, never through a combinator that can complete without it (timeout, "
+                     "select, abortable, now_or_never): the message stays in the shard's FIFO mailbox, so a caller that gives up is answered "
+                     "`failed` for a command that still takes effect later, outside its invocation/response window")
+    ck.rule("R02.10", "a shard's whole state is the executor it owns: code under src/redis/executor, src/redis/data and the command table reads "
+                      "or writes no thread-local and no run-time-mutable static (a Lua interpreter, cache or counter kept there is shared by every "
+                      "shard and client on the worker thread: replies would depend on what another key's command left behind, which no single "
+                      "order over the keyspace explains)")
     ck.nd("the linearizability verdict over interleavings (tokio scheduler and mpsc FIFO order are trusted)")
     ck.nd("Lua script atomicity beyond 'runs inside one handler'")
     for cfg in ctx.configs:
@@ -51,6 +59,8 @@ def run(ck, ctx):
         _r026(ck, prog, cfg)
         _r027(ck, prog, cfg)
         _r028(ck, prog, cfg)
+        _r029(ck, prog, cfg)
+        _r0210(ck, prog, cfg)
 
 
 PROD_PREFIXES = ("src/production/", "src/bin/", "src/redis/executor/", "src/streaming/", "src/replication/")
@@ -502,3 +512,71 @@ def _r028(ck, prog, cfg):
                      "a response slot is pushed into the pool without reset(): a late reply still sitting in it is what its next user receives",
                      f.where(t["ln"]), detail="fresh" if fresh else "reset() dominates the push")
     ck.floor("R02.8:push" + _tag(cfg), n, 2)
+
+
+# ------------------------------------------------------------------------------------------------
+REQ_FILES = ("src/production/sharded_actor.rs", "src/production/replicated_shard_actor.rs", "src/production/response_pool.rs",
+             "src/production/replicated_state.rs")
+ABANDON = (r"tokio::time::(timeout|timeout_at)\b", r"tokio::time::Timeout", r"future::(select|select_all|select_ok|abortable|try_select)\b",
+           r"FutureExt>::now_or_never$", r"Abortable", r"future::(poll_immediate|maybe_done)\b", r"tokio::time::(sleep|sleep_until|interval)\b")
+REPLY_FUT = r"tokio::sync::oneshot::Receiver<|response_pool::ResponseFuture|response_pool::PooledResponse"
+
+
+def _r029(ck, prog, cfg):
+    n = 0
+    for f in prog.lib_fns():
+        if f.file not in REQ_FILES or "test" in f.id:
+            continue
+        for b, t in f.calls():
+            nm = callee(t) or ""
+            if any(re.search(p, nm) for p in ABANDON) or "select" in str(t.get("x", "")):
+                ck.bad("R02.9", "%s:%s%s" % (f.id.replace("production::", "").replace("::{closure#0}", ""), nm.rsplit("::", 1)[-1].split("<")[0], _tag(cfg)),
+                       "the request path wraps a pending future in %s: when it fires first the caller is answered although the command it "
+                       "submitted is still queued in the shard mailbox and will execute later (the reply and the effect fall into different "
+                       "positions of the history)" % nm, f.where(t["ln"]))
+            if is_callee(t, r"Future>::poll$"):
+                ty = (t.get("selfty") or "") + " " + (t.get("fnargs") or "")
+                if re.search(REPLY_FUT, ty):
+                    n += 1
+                    ck.ok("R02.9", "%s:awaits-reply#%d%s" % (f.id.replace("production::", "").replace("::{closure#0}", ""), n, _tag(cfg)),
+                          detail="polls %s directly" % ty.split(" as ")[0][:80])
+    ck.floor("R02.9" + _tag(cfg), n, 6)
+
+
+def _static_refs(node, out):
+    if isinstance(node, dict):
+        if "static" in node and "sfrozen" in node:
+            out.append(("static", node["static"], node["sfrozen"]))
+        if node.get("k") == "tls" and "def" in node:
+            out.append(("tls", node["def"], False))
+        for v in node.values():
+            _static_refs(v, out)
+    elif isinstance(node, list):
+        for v in node:
+            _static_refs(v, out)
+
+
+def _r0210(ck, prog, cfg):
+    from .facts import callee_names
+    n = 0
+    for f in prog.lib_fns():
+        if "test" in f.id or not (f.file.startswith("src/redis/executor/") or f.file.startswith("src/redis/data/")
+                                   or f.file in ("src/redis/command.rs", "src/redis/commands.rs")):
+            continue
+        n += 1
+        refs = []
+        _static_refs(f.d.get("blocks"), refs)
+        for b, t in f.calls(reachable_only=False):
+            for nm in callee_names(t):
+                m = re.search(r"std::thread::LocalKey::<(.*?)>::(with|set|get|take|replace|with_borrow|with_borrow_mut|try_with)\b", nm)
+                if m:
+                    refs.append(("tls", "thread_local<%s>" % m.group(1), False))
+        for kind, name, frozen in sorted(set(refs)):
+            if frozen:
+                continue
+            ck.bad("R02.10", "%s:%s%s" % (f.short if f.kind != "closure" else (f.parent or "").rsplit("::", 1)[-1], re.sub(r"::\{.*", "", name), _tag(cfg)),
+                   "%s %s is used by %s: state kept there survives the command and is shared by every shard and connection served by the same "
+                   "thread/process, so a reply can depend on an earlier command against a different key or by a different client"
+                   % ("thread-local" if kind == "tls" else "the mutable static", name, f.id), f.where())
+    ck.check(n >= 300, "R02.10", "scan" + _tag(cfg), "only %d executor/data functions were scanned" % n, None,
+             detail="%d functions of the executor, data and command modules scanned for thread-local / mutable-static use" % n)
